@@ -54,6 +54,16 @@ CHECKS = {
             'designer\'s log must equal them. The VIEW includes an ever-delivered ghost so that states the implementation distinguishes (its persisted id cache) are explored separately.',
             'Bounds: one study, ids <= 3 (4 thorough), 1-2 workers, batch <= 2; complete reachable graph for the stateful mode. The in-RAM kept policy (InRamDesignerPolicy) shares '
             '_SerializableDesignerPolicyBase with the rebuilt one and is not driven separately. Known finding F14 (id reuse) listed.'),
+    'C16': (MC, '5 C16', 'SearchSpace.tla: TLC enumerates every ParameterConfig.factory argument combination, builder program, (flat space, typed assignment) pair and '
+            'conditional-tree traversal over small universes and computes validity / normal form / membership / yielded parameters; each case executed on the real code',
+            'Exhaustive within the universes: 3 880 definitions, 240 builder programs, 88 308 (space, assignment) pairs (35% sample of two-parameter spaces in quick), '
+            'every choose/skip sequence of 5 conditional trees in dfs and bfs order; TLC also checks on the model that a traversal yields exactly the active parameters.',
+            'Universes are small by construction (values in half units -1..3.5, inf, nan; strings a, b, True, z; Python bool marked Unspecified).'),
+    'C17': (MC, '5 C17', 'SearchSpace.tla presentation mode: TLC enumerates (conditional tree, stored trial) pairs and computes the typed values a client must read or that the trial must be rejected; '
+            'each trial is stored through a real servicer and read back with clients.Trial.parameters and StudyConfig.trial_parameters',
+            'Exhaustive over 5 tree shapes x every well-typed subset of stored parameters (684 cases): Python type and value of every presented parameter, grouping of x[i] names, '
+            'error for inactive/unknown parameters.',
+            'INTEGER parameters declared with add_int_param are compared by value only (their Python type after the wire trip is not fixed by the property).'),
 }
 
 PENDING = {
